@@ -222,6 +222,14 @@ fn main() {
         if i % 4 == 1 { cx.cycle_many(t.as_bytes(), "grammar-many-signers"); }
         if i % 2 == 0 { cx.tamper(t.as_bytes(), "tamper"); }
     }
+    // lines long enough for the signed form to end on and next to the 512-octet windows of the normalising reader that
+    // verification reads the text through (one line, and eight lines)
+    for n in (505usize..=516).chain(1017..=1030) {
+        let mut t = "x".repeat(n); t.push('\n');
+        cx.cycle(t.as_bytes(), n % 2 == 0, "window-edge");
+        let mut t8 = String::new(); for j in 0..8 { t8.push_str(&"y".repeat(if j == 7 { n.saturating_sub(7 * 126 + 16).max(1) } else { 126 })); t8.push('\n'); }
+        cx.cycle(t8.as_bytes(), false, "window-edge-lines");
+    }
     for len in 0..=(if thorough { 5 } else { 4 }) { for s in strings_over(&alpha, len) { cx.tamper(&s, "tamper-small"); } }
     cx.out.finish();
 }
